@@ -79,6 +79,47 @@ def make(pid, macro, profile, idx, seed, gates=None, heavy=False, cheap=False):
                    unwind=64 if not is_async else max(12, pp.max_polls() + 3))
 
 
+def make_err_step(pid, macro, tok, shape):
+    """a `~` in front of an ERROR-side operator (`~<|`, `~<=`, `~!>`) is a step boundary like any other, also in try macros (where the handler
+    itself can never run: a step is only reached with a success).  shape 'mid': branch 0 = s0 `|> a` s1 `~X h` s2 `~|> c`, branch 1 = s0, s1 `~|> d`,
+    s2 `~|> e`;  shape 'tail': branch 0 = s0, s1 `~X h |> a` (an instant operator after the handler), branch 1 = s0 `|> d`"""
+    is_async, is_try, is_spawn = KINDS[macro]
+    A, C, D, Ee, H = 40, 41, 42, 43, 44
+    if is_async:
+        cb = lambda e: "move |r: Result<u8, u8>| { ev(%d); r }" % e
+        h = {"<=": "move |e: u8| { ev(%d); ready(mk(true, e)) }" % H, "!>": "move |e: u8| { ev(%d); e }" % H}[tok]
+        init = lambda o_, p_: "ready(mk(%s, %s))" % (o_, p_)
+    else:
+        cb = lambda e: "move |v: u8| { ev(%d); v }" % e
+        h = {"<|": "lv(%d, mk(true, q))" % H, "<=": "move |e: u8| { ev(%d); mk(true, e) }" % H, "!>": "move |e: u8| { ev(%d); e }" % H}[tok]
+        init = lambda o_, p_: "mk(%s, %s)" % (o_, p_)
+    if shape == "mid":
+        b0 = "%s |> %s ~%s %s ~|> %s" % (init("o0", "p0"), cb(A), tok, h, cb(C))
+        b1 = "%s ~|> %s ~|> %s" % (init("o1", "p1"), cb(D), cb(Ee))
+        order = "cnt(%d) == 1 && cnt(%d) == 1 && cnt(%d) == 1 && cnt(%d) == 1 && last(%d) < first(%d) && last(%d) < first(%d) && last(%d) < first(%d)" % (A, C, D, Ee, A, D, D, C, D, Ee)
+    else:
+        b0 = "%s ~%s %s |> %s" % (init("o0", "p0"), tok, h, cb(A))
+        b1 = "%s |> %s" % (init("o1", "p1"), cb(D))
+        order = "cnt(%d) == 1 && cnt(%d) == 1 && last(%d) < first(%d)" % (A, D, D, A)
+    text = "%s! {\n        %s,\n        %s\n    }" % (macro, b0, b1)
+    msg = lambda t: "\"C03[%s]: %s\"" % (pid, t)
+    L = ["names_off();" if is_spawn and not is_async else "", "let o0 = b(); let o1 = b(); let p0 = u(); let p1 = u(); let q = u();"]
+    if is_async:
+        L.append("let mut fut = %s;" % text)
+        L.append("let (r, polls, lost) = drive(&mut fut, 4);")
+        L.append("vassert!(r.is_some(), %s);" % msg("completes"))
+        L.append("let r = r.unwrap();")
+    else:
+        L.append("let r = %s;" % text)
+    L.append("if o0 && o1 { vassert!(r == %s, %s); vassert!(%s, %s); }" % ("Ok((p0, p1))" if is_try else "(Ok(p0), Ok(p1))", msg("value"), order, msg("a `~` in front of `<|` / `<=` / `!>` starts a new step: what follows it waits for every branch to finish the previous step")))
+    L.append("vcover!(o0 && o1, \"all succeed\");")
+    if is_try and not is_async and tok == "<|":
+        # (the non-block operand of `<|` is an ordinary expression of its step: evaluated when the step is reached, so never after a failure)
+        L.append("if !(o0 && o1) { vassert!(cnt(%d) == 0, %s); }" % (H, msg("the operand of `~<|` belongs to the next step")))
+    return Program(pid, text, "    " + "\n    ".join(l for l in L if l), desc=dict(macro=macro, operator="~" + tok, shape=shape, symbolic=["ok flags", "payloads"] + (["early/late bit per thread"] if is_spawn and not is_async else [])),
+                   group="err-step/" + macro, role=dict(kind=macro), unwind=64 if not is_async else 12, solo=is_async, weight=2)
+
+
 def programs(tier, seed):
     ps = []
     i = 0
@@ -119,6 +160,14 @@ def programs(tier, seed):
     for p_ in a:
         p_.group = "wrapper-barrier"
     ps += a
+    k = 7500
+    for macro, toks in (("try_join", ("<|", "<=", "!>")), ("join", ("<|", "!>")), ("try_join_spawn", ("<|", "<=", "!>")), ("try_join_async", ("<=", "!>")), ("join_async", ("!>",))):
+        for tok in toks:
+            for shape in ("mid", "tail"):
+                k += 1
+                if tier == "quick" and (k + seed) % 2 and macro != "try_join":
+                    continue
+                ps.append(make_err_step("p%04d" % k, macro, tok, shape))
     return ps
 
 
